@@ -129,6 +129,21 @@ impl Mut for Zip {
     }
 }
 
+/// String keys, looked up through &str (the Borrow<Q> path: hash_key_borrowed vs hash_key)
+struct ZipStr(ZiporaHashMap<String, u64, ModeBuild>);
+impl Mut for ZipStr {
+    fn insert(&mut self, k: u64, v: u64) -> Option<R<Option<u64>>> { Some(self.0.insert(skey(k), v).map_err(|e| format!("{:?}", e))) }
+    fn remove(&mut self, k: u64) -> Option<R<Option<u64>>> { Some(Ok(self.0.remove(skey(k).as_str()))) }
+    fn get(&mut self, k: u64) -> Option<Option<u64>> { Some(self.0.get(skey(k).as_str()).copied()) }
+    fn get_mut_set(&mut self, k: u64, v: u64) -> Option<Option<u64>> { Some(self.0.get_mut(skey(k).as_str()).map(|r| std::mem::replace(r, v))) }
+    fn contains(&mut self, k: u64) -> Option<bool> { Some(self.0.contains_key(skey(k).as_str())) }
+    fn len(&mut self) -> Option<usize> { Some(self.0.len()) }
+    fn iter(&mut self) -> Option<Vec<(u64, u64)>> {
+        Some(self.0.iter().map(|(k, v)| (k.trim_start_matches("key-").parse::<u64>().unwrap_or(u64::MAX), *v)).collect())
+    }
+    fn clear(&mut self) -> Option<()> { self.0.clear(); Some(()) }
+}
+
 struct Gold<L: zipora::hash_map::LinkType>(GoldHashMap<CKey, u64, L>, u64);
 impl<L: zipora::hash_map::LinkType> Mut for Gold<L> {
     fn insert(&mut self, k: u64, v: u64) -> Option<R<Option<u64>>> { Some(self.0.insert(ckey(self.1, k), v).map_err(|e| format!("{:?}", e))) }
@@ -178,6 +193,19 @@ impl Mut for Sm {
         Some(n)
     }
     fn iter(&mut self) -> Option<Vec<(u64, u64)>> { Some(self.0.iter().map(|(k, v)| (k.id, *v)).collect()) }
+    fn clear(&mut self) -> Option<()> { self.0.clear(); Some(()) }
+}
+
+/// SmallMap<u8, V>: the specialised lookup `get_fast` (vectorised key search) stands in for get
+struct SmU8(SmallMap<u8, u64>);
+impl Mut for SmU8 {
+    fn insert(&mut self, k: u64, v: u64) -> Option<R<Option<u64>>> { Some(self.0.insert(k as u8, v).map_err(|e| format!("{:?}", e))) }
+    fn remove(&mut self, k: u64) -> Option<R<Option<u64>>> { Some(Ok(self.0.remove(&(k as u8)))) }
+    fn get(&mut self, k: u64) -> Option<Option<u64>> { Some(self.0.get_fast(&(k as u8)).copied()) }
+    fn get_mut_set(&mut self, k: u64, v: u64) -> Option<Option<u64>> { Some(self.0.get_mut(&(k as u8)).map(|r| std::mem::replace(r, v))) }
+    fn contains(&mut self, k: u64) -> Option<bool> { Some(self.0.contains_key(&(k as u8))) }
+    fn len(&mut self) -> Option<usize> { Some(self.0.len()) }
+    fn iter(&mut self) -> Option<Vec<(u64, u64)>> { Some(self.0.iter().map(|(k, v)| (*k as u64, *v)).collect()) }
     fn clear(&mut self) -> Option<()> { self.0.clear(); Some(()) }
 }
 
@@ -310,6 +338,11 @@ fn make_cell(family: &str, variant: u64, aux: u64) -> Cell {
             let model = if stub { Some(ModelDesc::Stub) } else { cap.map(|c| ModelDesc::Std { mode: aux, cap: c }) };
             Cell { name: format!("ZiporaHashMap/{}", name), status: if stub { "finding" } else { "M+S" }, model, stub, map: Box::new(Zip(m)) }
         }
+        "zipstr" => {
+            let (name, cfg, _, stub) = zip_config(variant);
+            let m = ZiporaHashMap::<String, u64, ModeBuild>::with_config_and_hasher(cfg, ModeBuild(aux)).expect("with_config_and_hasher");
+            Cell { name: format!("ZiporaHashMap<String>/{}", name), status: if stub { "finding" } else { "S-only" }, model: None, stub, map: Box::new(ZipStr(m)) }
+        }
         "zipcap" => {
             // ZiporaHashMap::with_capacity(n) needs S: Default, i.e. hasher mode 0
             let n = variant as usize;
@@ -328,6 +361,7 @@ fn make_cell(family: &str, variant: u64, aux: u64) -> Cell {
                 _ => GoldHashIdx::with_pool(16, SecureMemoryPool::new(SecurePoolConfig::small_secure()).expect("pool")) };
             Cell { name: format!("GoldHashIdx/{}", ["new", "with_capacity1", "with_pool"][variant.min(2) as usize]), status: "S-only", model: None, stub: false, map: Box::new(Idx(m, aux)) }
         }
+        "small_u8" => Cell { name: "SmallMap<u8>/get_fast".into(), status: "S-only", model: None, stub: false, map: Box::new(SmU8(SmallMap::new())) },
         "small" => Cell { name: "SmallMap".into(), status: "M+S", model: Some(ModelDesc::Small), stub: false, map: Box::new(Sm(SmallMap::new(), aux)) },
         "easy" => {
             let (m, desc) = match variant {
@@ -599,6 +633,21 @@ pub fn run(args: &Args) {
         history(&mut cx, "idx", 0, 2, ops, false);
         history(&mut cx, "small", 0, 2, ops, false);
     }
+    // SmallMap<u8>::get_fast: every fill level 0..=9 of the inline array, lookups of absent keys (0 and 255 included)
+    for fill in 0..=9u64 {
+        for base in [1u64, 0, 200] {
+            let mut ops: Vec<(u64, u64, u64)> = (0..fill).map(|i| (0, (base + i) % 256, 100 + i)).collect();
+            for probe in [0u64, 255, 7, base, (base + fill) % 256, (base + 20) % 256] { ops.push((2, probe, 0)); }
+            ops.push((5, 0, 0));
+            history(&mut cx, "small_u8", 0, 0, &ops, false);
+            if fill > 0 {
+                let mut ops2 = ops.clone();
+                ops2.push((1, base % 256, 0));
+                for probe in [0u64, 255, base, (base + 1) % 256] { ops2.push((2, probe, 0)); }
+                history(&mut cx, "small_u8", 0, 0, &ops2, false);
+            }
+        }
+    }
     cx.sum.dist_max("enumerated_histories", count);
 
     // generated histories
@@ -613,11 +662,13 @@ pub fn run(args: &Args) {
             let mode = if rng.chance(1, 2) { (i + variant) % N_HASHERS } else { rng.below(N_HASHERS) };
             history(&mut cx, "zip", variant, mode, &ops, room && (variant + i) % 3 == 0);
         }
+        for variant in [0u64, 1, 3, 9] { history(&mut cx, "zipstr", variant, rng.below(N_HASHERS), &ops, false); }
         let n = *rng.pick(&[0u64, 1, 16, 17, 24, 31, 33, 64, 100]);
         history(&mut cx, "zipcap", n, 0, &ops, room);
         for variant in 0..GOLD_VARIANTS { history(&mut cx, "gold", variant, rng.below(4), &ops, room && (variant + i) % 4 == 1 && ops.len() <= 120); }
         for variant in 0..3 { history(&mut cx, "idx", variant, rng.below(4), &ops, false); }
         history(&mut cx, "small", 0, rng.below(4), &ops, room);
+        if ops.iter().all(|o| o.1 < 256) { history(&mut cx, "small_u8", 0, 0, &ops, false); }
         for variant in 0..5 { history(&mut cx, "easy", variant, rng.below(4), &ops, room && (variant + i) % 5 == 2 && ops.len() <= 120); }
         history(&mut cx, "str", i % 2, 0, &ops, false);
     }
